@@ -101,7 +101,7 @@ def search(rep: C.Report, tier: str, broken):
                     for fn, nm, tol in ((p, "p", 1e-7), (dp, "dp", 1e-7), (ddp, "ddp", 1e-6), (csq, "csq", 1e-7)):
                         lo, hi = float(fn(Tb * (1 - 1e-10))), float(fn(Tb * (1 + 1e-10)))
                         rep.case(key=(tuple(sorted(params.items())), TnFrac, ph, "cont", name, nm))
-                        if abs(lo - hi) > tol * max(abs(lo), abs(hi)):
+                        if not abs(lo - hi) <= tol * max(abs(lo), abs(hi)):
                             rep.violation(f"{nm}{ph} discontinuous at {name}",
                                           {"model": params, "TnFrac": TnFrac, "phase": ph, "boundary": name, "T": Tb,
                                            "left": lo, "right": hi, "quantity": nm},
@@ -176,7 +176,7 @@ def search(rep: C.Report, tier: str, broken):
         inf_ = {"model": "toy2 (first-order field + spectator)", "params": params, "rTol": rTol_, "TnFrac": tf_, "TMaxLowT": float(th.TMaxLowT), "spinodal_T1": float(T1),
                 "flag_upper_end": bool(th.freeEnergyLow.maxPossibleTemperature[1]),
                 "how": "models.make_thermo('toy2', params, TnFrac=0.6, tminFrac=0.8, tmaxFrac=1.5, cross=True)"}
-        if th.TMaxLowT > T1 * (1 + 1e-5):
+        if not th.TMaxLowT <= T1 * (1 + 1e-05):
             rep.violation("the tabulated range of the low-T phase reaches beyond the temperature where the phase ceases to exist", inf_,
                           finding_key="C10:spectator:range")
             continue
@@ -185,7 +185,7 @@ def search(rep: C.Report, tier: str, broken):
             P, CS = float(th.pLowT(T)), float(th.csqLowT(T))
             ex = float(-ref.VBroken(T))
             worst = max(worst, abs(P - ex) / abs(ex))
-            if abs(P - ex) > max(1e-5, 30 * rTol_) * abs(ex) or not 0 < CS < 1:
+            if not abs(P - ex) <= max(1e-05, 30 * rTol_) * abs(ex) or not 0 < CS < 1:
                 rep.violation("inside the tabulated range of the low-T phase p is not -Veff(min) or the sound speed is not in (0,1)",
                               dict(inf_, T=float(T), p=P, minus_Veff_min=ex, csq=CS), finding_key="C10:spectator:inside")
                 break
